@@ -15,7 +15,6 @@
 
 """Some generic utility functions used by Gin."""
 
-import contextlib
 import inspect
 
 
@@ -91,11 +90,25 @@ def _format_location(location):
   return line_info + char_info
 
 
-@contextlib.contextmanager
-def try_with_location(location):
-  try:
-    yield
-  except Exception as exception:  # pylint: disable=broad-except
-    if isinstance(exception, SyntaxError):
-      raise  # SyntaxErrors already include location information.
-    augment_exception_message_and_reraise(exception, _format_location(location))
+class try_with_location:  # pylint: disable=invalid-name
+  """Context manager appending `location` to the message of errors in its body.
+
+  This is a class rather than a `contextlib.contextmanager` generator: raising
+  the stand-in of a `StopIteration` from inside a generator would turn it into a
+  `RuntimeError` (PEP 479).
+  """
+
+  def __init__(self, location):
+    self._location = location
+
+  def __enter__(self):
+    return self
+
+  def __exit__(self, exception_type, exception, traceback):
+    if not isinstance(exception, Exception):
+      return False
+    if (isinstance(exception, SyntaxError) and
+        not getattr(exception, 'raised_by_import', False)):
+      return False  # The config's SyntaxErrors include location information.
+    augment_exception_message_and_reraise(
+        exception, _format_location(self._location))
